@@ -9,39 +9,30 @@ import struct
 MARK = "<MARK>"
 
 
-class Stub:
-    """inert stand-in for a global: calling it records the call and returns a fresh StubObj"""
+def make_stub(log, module, name):
+    """inert stand-in for a global: a *class* (so that NEWOBJ / OBJ / INST accept it) whose construction through any route — cls(...),
+    cls.__new__(cls, ...) — records one call event and returns an inert instance; __setstate__ records a build event"""
+    qual = f"{module}.{name}"
 
-    def __init__(self, log, module, name):
-        self._log, self.module, self.name = log, module, name
+    class Meta(type):
+        def __call__(cls, *a, **k):
+            log.append(("call", qual, a, k))
+            return object.__new__(cls)
 
-    def __call__(self, *args, **kwargs):
-        o = StubObj(self, args, kwargs)
-        self._log.append(("call", f"{self.module}.{self.name}", args, kwargs))
-        return o
+        def __repr__(cls):
+            return f"G({qual})"
 
-    def __reduce_ex__(self, p):
-        raise TypeError("stub")
+    def _new(cls, *a, **k):
+        log.append(("call", qual, a, k))
+        return object.__new__(cls)
 
-    def __repr__(self):
-        return f"G({self.module}.{self.name})"
+    def _setstate(self, state):
+        log.append(("build", qual, state))
 
-
-class StubObj:
-    def __init__(self, cls, args, kwargs):
-        self.__dict__["_cls"], self.__dict__["_args"], self.__dict__["_kwargs"] = cls, args, kwargs
-        self.__dict__["_state"] = []
-
-    def __setstate__(self, state):
-        self._state.append(state)
-        self._cls._log.append(("build", repr(self._cls), state))
-
-    def __repr__(self):
-        return f"Ret({self._cls!r})"
-
-
-class StubClass(type):
-    pass
+    def _repr(self):
+        return f"Ret({qual})"
+    return Meta(name, (), {"__new__": _new, "__setstate__": _setstate, "__repr__": _repr, "__module__": module,
+                           "__eq__": lambda a, b: type(a) is type(b), "__hash__": lambda a: 0})
 
 
 class RefVM(pickle._Unpickler):
@@ -52,7 +43,7 @@ class RefVM(pickle._Unpickler):
 
     def find_class(self, module, name):
         self.log.append(("import", module, name))
-        return Stub(self.log, module, name)
+        return make_stub(self.log, module, name)
 
     def persistent_load(self, pid):
         self.log.append(("persistent_load", pid))
@@ -208,6 +199,9 @@ def corpus():
         P.append((f"{nm}_obj_popped", [op("MARK")] + g("builtins", "exec") + [u("x=1"), op("OBJ"), op("POP"), op("NONE"), op("STOP")]))
         P.append((f"{nm}_build", g("m", "C") + [op("EMPTY_TUPLE"), op("REDUCE"), op("EMPTY_DICT"), u("a"), one, op("SETITEM"), op("BUILD"), op("STOP")]))
         P.append((f"{nm}_dup_memo", g("os", "getenv") + [op("DUP"), op("PUT", 3), op("POP"), u("HOME"), op("TUPLE1"), op("REDUCE"), op("GET", 3), op("TUPLE2"), op("STOP")]))
+    P.append(("dotted_collision_a", [op("PROTO", 4)] + SG("os", "path.join") + SG("os.path", "join") + [op("TUPLE2"), op("STOP")]))
+    P.append(("dotted_collision_b", [op("PROTO", 4)] + SG("pkg.sub", "run") + SG("pkg", "sub.run") + [op("TUPLE2"), op("STOP")]))
+    P.append(("same_import_twice", G("os", "getcwd") + G("os", "getcwd") + [op("TUPLE2"), op("STOP")]))
     P.append(("inst", [op("MARK"), u("a"), op("INST", ("os", "system")), op("STOP")]))
     P.append(("inst_popped", [op("MARK"), u("a"), op("INST", ("os", "system")), op("POP"), op("NONE"), op("STOP")]))
     P.append(("binpersid", [u("pid"), op("BINPERSID"), op("STOP")]))
